@@ -12,6 +12,7 @@
   the rational entry.
 -/
 import Model.Parser
+import Generated.Panics
 import Lemmas.ParserLemmas
 import Mathlib.Tactic.Ring
 import Mathlib.Tactic.FieldSimp
@@ -520,5 +521,17 @@ example : (Op.mk true [⟨true, .x, false, 0, 0, 0, 0, 0⟩, ⟨false, .frac 1 2
     [⟨false, .y, false, 1, 0, 0, 0, 0⟩]).render = "(-x + 1/2, y)".toList := by decide
 example : (Op.mk true [⟨true, .x, false, 0, 0, 0, 0, 0⟩, ⟨false, .frac 1 2, true, 1, 1, 0, 0, 0⟩]
     [⟨false, .y, false, 1, 0, 0, 0, 0⟩]).WF = true := by decide
+
+/-- **panic inventory** (regenerated from the text of `from_operations` on every run): the only
+panic-capable constructs are the three matrix index expressions `transform[(index, 0|1|2)]` of a
+3×3 matrix with `index` ranging over the positions of `operations`, whose length was checked to be
+exactly 2 before the loop — so they are in range; there is no `unwrap`/`expect`/`panic!`/`assert!`
+(the digit parse uses `?`, i.e. an error, and only sees '0'..='9'). A new panic-capable construct
+changes this list and breaks the obligation. -/
+theorem declared_panic_sites :
+    Generated.fromOperationsPanicSites =
+      ["index transform[(index, 0)]", "index transform[(index, 1)]", "index transform[(index, 2)]"] ∧
+    Generated.panicsUnrecognised = [] :=
+  ⟨rfl, rfl⟩
 
 end PV.Proofs.C17
